@@ -57,7 +57,10 @@ def stepLine (s : St) (line : String) : St × String :=
           let v : Bytes := if k = asciiB "Accept" then asciiB "text/x" else if k = asciiB "X-Custom" then hdr else []
           s!"req_{showB (lowerU k)}={encB v}"
         let respX := if !o.claimed then [] else s.logResp.filter (· ≠ asciiB "Content-Type") |>.map fun k =>
-          let v : Bytes := if k = asciiB "X-Resp" && served && (match f with | .ok _ _ => true | .early _ _ => true | _ => false) then asciiB "v1,v2" else []
+          let v : Bytes :=
+            if k = asciiB "X-Resp" && served && (match f with | .ok _ _ => true | .early _ _ => true | _ => false) then asciiB "v1,v2"
+            else if k = asciiB "X-Resp" && (match o.client with | .upgraded => true | _ => false) then asciiB "u1"   -- the 101's own headers
+            else []
           s!"resp_{showB (lowerU k)}={encB v}"
         let extra := sortStrs (reqX ++ respX)
         let logStr := s!"n=1 status={o.logStatus} bytes={bytes} method={method} host={showB host} path={encB path} query={encB query} " ++
